@@ -62,6 +62,8 @@ BOUNDS = {
               "slit_both": "(L/qmid, W/qmin) in (0.8, 0.1), (0.1, 0.5), (5, 0.3)",
               "slit_width_folded_over_qmin": [5.0, 2.3, 1.2, 1.0],
               "pinhole_folded_q_over_sigma": [0.4, 1.0, 2.0, 2.5],
+              "storage_order": "every 1-D case of the intensities linear and dampedcos also with the data points stored "
+                               "descending, rotated (cyclic shift n//3) and interleaved (two banks)",
               "pinhole_default_grid": "data = linspace(qref, 6 qref, n), n = 31, 61, 121, sigma = q/ratio for the folded "
                                       "ratios, q_calc=None (default extension); 7 data points judged per n",
               "slit_both_folded": "(L/qmid, W/qmin) in (0.8, 5), (0.3, 1.2), (2, 1), (0.1, 2.3)",
@@ -85,6 +87,7 @@ BOTH_SETS = [(0.8, 0.1), (0.1, 0.5), (5.0, 0.3)]
 FOLD_WID_SETS = [5.0, 2.3, 1.2, 1.0]
 # folded pinhole windows: q/sigma < 2.5 puts part of [q-2.5s, q+3s] below zero; 2.5 ends the window on q = 0
 FOLD_PIN_RATIOS = [0.4, 1.0, 2.0, 2.5]
+ORDER_FNS = ["linear", "dampedcos"]       # intensities for which every 1-D case is repeated in the other storage orders
 FOLD_BOTH_SETS = [(0.8, 5.0), (0.3, 1.2), (2.0, 1.0), (0.1, 2.3)]
 FN_NAMES = ["const", "linear", "quadratic", "lorentz2", "dampedcos"]
 SIG2D = [(0.1, 0.03), (0.03, 0.1), (0.2, 0.05), (0.08, 0.08)]
@@ -121,6 +124,11 @@ def cases(ctx):
             out.append({"kind": "slit-width", "L": 0.0, "W": W, "fn": fn, "qref": qref, "offset": off})
         for L, W in FOLD_BOTH_SETS:
             out.append({"kind": "slit-both", "L": L, "W": W, "fn": fn, "qref": qref, "offset": off})
+    # storage order: every 1-D case of two intensities again with the data points stored descending / rotated /
+    # interleaved (the reference of a data point does not depend on where the point is stored)
+    for c in [c for c in out if c["fn"] in ORDER_FNS]:
+        for order in H.ORDERS[1:]:
+            out.append(dict(c, order=order))
     for acc in ACCURACIES:
         for s in range(len(SIG2D)):
             for form in FORMS2D:
@@ -263,11 +271,16 @@ def pinhole_bound(t, qi, si, h, exact, cut=0.0, junctions=0):
 
 def run_pinhole(case, ctx, r):
     from sasmodels import resolution
-    q = case["qref"] * QREL
+    qa = case["qref"] * QREL
+    order = case.get("order")
+    q = qa[H.order_perm(order, 3)] if order else qa          # storage order; per-point widths travel with the points
     rel = case["rel"]
     sig = rel * q
-    t = _fn(case["fn"], q[1])
+    t = _fn(case["fn"], qa[1])
     fk = {"class": "Pinhole1D", "fn": case["fn"], "widths": "sigma=%gq" % rel}
+    if order:
+        fk["order"] = order
+        r.branch("order:" + order)
     desc = "Pinhole1D(q=%r, q_width=%r*q, q_calc=uniform(h))  f=%s" % (list(q), rel, case["fn"])
     cv = Conv(r, fk, desc)
     ex = [pinhole_exact(t, q[i], sig[i]) for i in range(3)]
@@ -350,15 +363,23 @@ def run_pinhole_default(case, ctx, r):
     q0, ratio = case["qref"], case["ratio"]
     t = _fn(case["fn"], 2.3 * q0)
     fk = {"class": "Pinhole1D", "fn": case["fn"], "widths": "sigma=q/%g" % ratio, "qcalc": "default"}
-    desc = "Pinhole1D(q=linspace(%r, %r, n), q_width=q/%r, q_calc=None)  f=%s" % (q0, 6 * q0, ratio, case["fn"])
+    order = case.get("order")
+    if order:
+        fk["order"] = order
+        r.branch("order:" + order)
+    desc = ("Pinhole1D(q=linspace(%r, %r, n)%s, q_width=q/%r, q_calc=None)  f=%s"
+            % (q0, 6 * q0, " stored %s" % order if order else "", ratio, case["fn"]))
     cv = Conv(r, fk, desc)
     c = H.MIN_ABS_Q * q0
     cache = {}
     errs, bnds, hs = [], [], []
     for n in ([31, 61, 121] if ctx.quick else [31, 61, 121, 241]):
-        q = np.linspace(q0, 6 * q0, n)
+        qa = np.linspace(q0, 6 * q0, n)
+        h = float(qa[1] - qa[0])
+        perm = H.order_perm(order, n) if order else np.arange(n)
+        inv = np.argsort(perm)                     # ascending index -> stored position
+        q = qa[perm]
         sig = q / ratio
-        h = float(q[1] - q[0])
         with warnings.catch_warnings():
             warnings.simplefilter("ignore")
             res = resolution.Pinhole1D(q.copy(), sig.copy())
@@ -366,7 +387,7 @@ def run_pinhole_default(case, ctx, r):
             got = np.asarray(res.apply(t.f(np.asarray(res.q_calc, float))), float)
         e, b = [], []
         for frac in range(7):
-            i = frac * (n - 1) // 6
+            i = int(inv[frac * (n - 1) // 6])      # stored position of the judged (ascending-indexed) point
             if frac not in cache:
                 cache[frac] = pinhole_exact(t, q[i], sig[i])
             exact, qerr = cache[frac]
@@ -390,12 +411,17 @@ def run_pinhole_default(case, ctx, r):
 
 def run_slit(case, ctx, r):
     from sasmodels import resolution
-    q = case["qref"] * QREL
+    qa = case["qref"] * QREL
     kind = case["kind"]
-    L, W = case["L"] * q[1], case["W"] * q[0]      # length relative to the middle q, width to the smallest
-    t = _fn(case["fn"], q[1])
+    L, W = case["L"] * qa[1], case["W"] * qa[0]      # length relative to the middle q, width to the smallest
+    t = _fn(case["fn"], qa[1])
+    order = case.get("order")
+    q = qa[H.order_perm(order, 3)] if order else qa  # storage order of the three data points
     fk = {"class": "Slit1D", "shape": kind[5:] + "-only" if kind != "slit-both" else "both", "fn": case["fn"],
-          "widths": "L=%gqmid,W=%gqmin" % (L / q[1], W / q[0])}
+          "widths": "L=%gqmid,W=%gqmin" % (L / qa[1], W / qa[0])}
+    if order:
+        fk["order"] = order
+        r.branch("order:" + order)
     desc = "Slit1D(q=%r, q_length=%r, q_width=%r, q_calc=uniform(h))  f=%s" % (list(q), L, W, case["fn"])
     cv = Conv(r, fk, desc)
     wins = [H.slit_window(qi, L, W) for qi in q]
@@ -582,6 +608,8 @@ def finish(ctx, report):
     for a in ACCURACIES:
         report.require("p2d:" + a, len(SIG2D) * len(FORMS2D), "2-D accuracy level")
     report.require("nontrivial", 500, "smeared value differs from the unsmeared one")
+    for o in H.ORDERS[1:]:
+        report.require("order:" + o, 40, "1-D cases with the data points stored in another order")
     report.require("pinhole:folded", 20, "pinhole width sets whose windows reach q <= 0 (user grids with negative q)")
     report.require("pinhole-default", 20, "pinhole with the default-extended grid")
     report.require("pinhole-window-folded", 300, "pinhole data points with q < 2.5 sigma (window folded at q = 0)")
